@@ -318,6 +318,33 @@ func (g *gen) progLoop() ([]byte, []byte, []byte) {
 	return a.bytes(), nil, g.auxProg()
 }
 
+// fill the stack to exactly n words (n around the 1024 limit), run one more opcode, stop:
+// the only way to see WHERE the overflow check sits (a failing frame reports no gas)
+func (g *gen) progStackEdge() ([]byte, []byte, []byte) {
+	r := g.r
+	a := &asm{}
+	n := 1021 + r.Intn(6)
+	if r.Chance(1, 2) {
+		a.pushU(1)
+		for i := 1; i < n; i++ {
+			a.op(0x80) // DUP1
+		}
+	} else {
+		for i := 0; i < n; i++ {
+			a.pushU(uint64(i & 0xff))
+		}
+	}
+	if r.Chance(2, 3) {
+		op := []byte{0x80, 0x60, 0x90, 0x01, 0x50, 0x5b, 0x51, 0x58, 0x8f, 0x9f, 0x5f, 0x30, 0x19}[r.Intn(13)]
+		a.op(op)
+		if op == 0x60 {
+			a.op(0x07)
+		}
+	}
+	a.op(0x00)
+	return a.bytes(), nil, nil
+}
+
 // call-family and create programs
 func (g *gen) progCalls() ([]byte, []byte, []byte) {
 	r := g.r
@@ -760,9 +787,15 @@ func main() {
 		case k < 12:
 			kind = "random-bytes"
 			code, input, aux = g.progRandomBytes()
-		case k < 14:
+		case k < 13:
 			kind = "loop"
 			code, input, aux = g.progLoop()
+		case k < 14:
+			kind = "stack-edge"
+			code, input, aux = g.progStackEdge()
+			if gas < 100000 {
+				gas = 1000000
+			}
 		case k < 17:
 			kind = "calls"
 			code, input, aux = g.progCalls()
